@@ -4,6 +4,7 @@
 package snaps
 
 import (
+	"github.com/tidwall/pretty"
 	"fmt"
 	"os"
 	"path/filepath"
@@ -31,6 +32,9 @@ type c04Case struct {
 	UpdateOpt *bool     `json:"update_option"` // Update option of the updating process
 	Mode3     Mode      `json:"mode3"`
 	Upd3      *bool     `json:"update_option3"`
+	// JSON2: the updating and the read-only process build their Configs with these JSON options (the project changed
+	// indent / width / key sorting since the snapshots were recorded): the formatted value of JSON calls changes with them
+	JSON2 *JSONCfg `json:"json_options_of_the_update_run,omitempty"`
 	// CRLF: after the recording run the multi-entry file is converted to CRLF line ends (a checkout with core.autocrlf)
 	CRLF bool `json:"file_converted_to_crlf,omitempty"`
 }
@@ -204,6 +208,18 @@ func genC04(t *rapid.T) c04Case {
 	}
 	c.Mode3, c.Upd3 = genReadOnlyMode(t)
 	c.CRLF = rapid.IntRange(0, 4).Draw(t, "crlf") == 0
+	if rapid.IntRange(0, 3).Draw(t, "json2") == 0 {
+		c.JSON2 = &JSONCfg{Width: rapid.SampledFrom([]int{80, 20, 200}).Draw(t, "w2"), Indent: rapid.SampledFrom([]string{"  ", "\t", " ", ""}).Draw(t, "i2"), SortKeys: rapid.Bool().Draw(t, "s2")}
+		for ti := range c.Tests {
+			for ci := range c.Tests[ti].Calls {
+				for _, call := range []*Call{&c.Tests[ti].Calls[ci].Old, &c.Tests[ti].Calls[ci].New} {
+					if (call.API == "json" || call.API == "sjson") && call.Form == "value" {
+						call.Form = "string" // the text form keeps the member order the options may or may not sort
+					}
+				}
+			}
+		}
+	}
 	return c
 }
 
@@ -256,10 +272,26 @@ func checkC04(c c04Case) error {
 		return s
 	}
 
+	// the formatted value of a JSON call under given options, computed with tidwall/pretty (a dependency, as kr/pretty for
+	// MatchSnapshot values): nil options = the library's defaults (sorted keys, one blank of indent, no width)
+	jsonText := func(call Call, o *JSONCfg) string {
+		po := &pretty.Options{SortKeys: true, Indent: " "} // snaps/matchJSON.go defaultPrettyJSONOptions (no Width)
+		if o != nil {
+			po = &pretty.Options{SortKeys: o.SortKeys, Indent: o.Indent, Width: o.Width}
+		}
+		return strings.TrimSuffix(string(pretty.PrettyOptions([]byte(call.Doc), po)), "\n")
+	}
+	isJSON := func(call Call) bool {
+		return (call.API == "json" || call.API == "sjson") && len(call.Matchers) == 0
+	}
+
 	// process 2: updating enabled
 	newProcess(Mode{Update: c.UpdateEnv})
 	spec := c.Cfg
 	spec.Update = c.UpdateOpt
+	if c.JSON2 != nil {
+		spec.JSON, soloSpec.JSON = c.JSON2, c.JSON2
+	}
 	cfg = spec.build(root)
 	soloSpec.Update = c.UpdateOpt
 	solo = soloSpec.build(root)
@@ -281,6 +313,9 @@ func checkC04(c c04Case) error {
 				return fmt.Errorf("update run %s call %d: %v", tc.Name, k+1, err)
 			}
 			changed := fullKey(cc.Old) != fullKey(cc.New)
+			if c.JSON2 != nil && isJSON(cc.Old) && isJSON(cc.New) {
+				changed = jsonText(cc.Old, c.Cfg.JSON) != jsonText(cc.New, c.JSON2)
+			}
 			if !changed {
 				if out != oPassed {
 					return fmt.Errorf("update run %s call %d (%s, value unchanged): outcome %s, want passed; errors=%q", tc.Name, k+1, cc.New.API, out, clipAll(r.Errors))
@@ -319,6 +354,9 @@ func checkC04(c c04Case) error {
 					if err := checkStandaloneJSON(got, string(cc.New.Doc)); err != nil {
 						return fmt.Errorf("update run %s call %d: standalone file %q: %v", tc.Name, k+1, file, err)
 					}
+					if c.JSON2 != nil && isJSON(cc.New) && got != jsonText(cc.New, c.JSON2) {
+						return fmt.Errorf("update run %s call %d: standalone file %q holds %q, the document formatted with the options of this run is %q", tc.Name, k+1, file, clip(got), clip(jsonText(cc.New, c.JSON2)))
+					}
 				}
 				continue
 			}
@@ -341,6 +379,9 @@ func checkC04(c c04Case) error {
 					if err := checkStoredBody(cc.New, string(got[i].Body)); err != nil {
 						return fmt.Errorf("update run %s call %d: rewritten entry %q: %v", tc.Name, k+1, id, err)
 					}
+					if c.JSON2 != nil && isJSON(cc.New) && string(got[i].Body) != jsonText(cc.New, c.JSON2) {
+						return fmt.Errorf("update run %s call %d: rewritten entry %q holds %q, the document formatted with the options of this run is %q", tc.Name, k+1, id, clip(string(got[i].Body)), clip(jsonText(cc.New, c.JSON2)))
+					}
 					continue
 				}
 				if got[i].Body != expected[i].Body {
@@ -356,6 +397,9 @@ func checkC04(c c04Case) error {
 	newProcess(c.Mode3)
 	spec = c.Cfg
 	spec.Update = c.Upd3
+	if c.JSON2 != nil {
+		spec.JSON = c.JSON2
+	}
 	cfg = spec.build(root)
 	soloSpec.Update = c.Upd3
 	solo = soloSpec.build(root)
